@@ -1,5 +1,6 @@
 From Coq Require Import Extraction ExtrOcamlBasic ZArith List.
-From LP Require Import Num C15_Model.
+From LP Require Import Num C15_Model C15_Model2.
 Extraction Language OCaml.
 Extraction "C15_m.ml" householder qr_decomposition eigenvalues determinant inverse find_eigenvector_rayleigh eigensystem session
+  sign_int sign_xy relative_difference msquare mtrace determinant_g invertible inverse_g eigenvectors householder_steps
   nrows Z.of_nat Z.to_nat.
